@@ -115,13 +115,20 @@ def _lake_lock():
 
 
 def run_extract() -> Dict[str, str]:
-    """Regenerate lean/Upnp/Gen/*.lean from REPO. Returns {module: 'ok' | error text}."""
+    """Regenerate lean/Upnp/Gen/*.lean from REPO (and the generated Driver.lean / Upnp.lean).
+    Returns {module: 'ok' | error text}."""
     sys.path.insert(0, str(VERIF / "tools"))
     try:
         extract = importlib.import_module("extract")
+        gen_driver = importlib.import_module("gen_driver")
     finally:
         sys.path.pop(0)
-    return extract.run(REPO, LEAN / "Upnp" / "Gen")
+    lock = _lake_lock()
+    try:
+        gen_driver.run()
+        return extract.run(REPO, LEAN / "Upnp" / "Gen")
+    finally:
+        lock.close()
 
 
 def lake_build(targets: List[str], timeout: float = 1500) -> (bool, str):
@@ -255,10 +262,15 @@ def run_driver(prop: str, cases: List[Case], work: Path) -> Dict[str, Verdict]:
 
 
 def load_findings(prop: str) -> List[dict]:
-    f = VERIF / "known_findings.json"
-    if not f.exists():
-        return []
-    return [e for e in json.loads(f.read_text()).get("findings", []) if e.get("property") == prop]
+    """known_findings.json (generated union) plus the fragments in known_findings.d/ (read-only)."""
+    out: Dict[str, dict] = {}
+    files = [VERIF / "known_findings.json"] + sorted((VERIF / "known_findings.d").glob("*.json"))
+    for f in files:
+        if f.exists():
+            for e in json.loads(f.read_text()).get("findings", []):
+                if e.get("property") == prop:
+                    out[e["id"]] = e
+    return list(out.values())
 
 
 def match_finding(findings: List[dict], signature: str) -> Optional[dict]:
@@ -320,6 +332,8 @@ def write_replay(prop: str, kind: str, payload: dict) -> Path:
 def main(argv: List[str]) -> int:
     import argparse
 
+    if argv[:1] == ["--setup"]:
+        return setup()
     ap = argparse.ArgumentParser()
     ap.add_argument("prop")
     ap.add_argument("--tier", default=os.environ.get("VERIF_TIER", "quick"), choices=["quick", "thorough"])
@@ -343,6 +357,25 @@ def main(argv: List[str]) -> int:
         return 2
     finally:
         shutil.rmtree(work, ignore_errors=True)
+
+
+def setup() -> int:
+    """MANIFEST.setup_cmd: regenerate the generated Lean files from REPO and build everything."""
+    gen = run_extract()
+    for k, v in gen.items():
+        print(f"extract {k}: {v}")
+    ok, log = lake_build(["Upnp", "driver"], timeout=3000)
+    print(log[-3000:] if not ok else "lake build: ok")
+    return 0 if ok else 2
+
+
+def leanchecker(prop: str) -> (bool, str):
+    lock = _lake_lock()
+    try:
+        p = subprocess.run(["lake", "env", "leanchecker", f"Upnp.Props.{prop}"], cwd=LEAN, capture_output=True, text=True, timeout=900)
+        return p.returncode == 0, (p.stdout + p.stderr)[-1500:]
+    finally:
+        lock.close()
 
 
 def _run(ctx: Ctx, replay: Optional[str], t0: float) -> int:
@@ -373,6 +406,12 @@ def _run(ctx: Ctx, replay: Optional[str], t0: float) -> int:
         aud = audit(prop, ctx.work)
         if not aud["ok"]:
             broken.append({"obligation": "audit", "detail": json.dumps({k: aud.get(k) for k in ("forbidden", "bad_theorems", "log")})[:2000]})
+
+    rechecked = None
+    if ok_props and ctx.thorough and not replay:
+        rechecked, lc_log = leanchecker(prop)
+        if not rechecked:
+            broken.append({"obligation": "leanchecker", "detail": lc_log})
 
     # 4. harness on the real code
     activate_repo()
@@ -471,6 +510,7 @@ def _run(ctx: Ctx, replay: Optional[str], t0: float) -> int:
             "theorems": {t: aud["axioms"].get(t) for t in thms},
             "generated_pins": {m: gen.get(m) for m in pins},
             "broken_obligations": [b["obligation"] for b in broken],
+            "leanchecker_rechecked": rechecked,
             "evaluations": len(cases),
             "distinct_nontrivial": sum(1 for v in distinct.values() if v),
             "traces_validated_against_impl": len(cases) - len(corr_fail) - len(judge_fail),
